@@ -194,6 +194,8 @@ impl XmlReader {
 
     fn read_wsdl<'n>(node: Node<'n, 'n>, files: &Files, doc: &mut RustDocument) -> WriterResult<()> {
         for child in node.children() {
+            // the inline schema may have bound prefixes of the definitions element anew
+            crate::model::node::collect_namespaces_on_node(child, doc);
             let node_name = child.tag_name().name();
             // first read the types as if it were an XSD
             if node_name == "types" {
